@@ -350,11 +350,96 @@ def run_s1(seed, tier, log):
     res['cases_path'] = cpath
     res['key'] = key
     res['specs'] = {c.split()[0][3:]: c for c in cases}
+    res['result_hash'] = result_hashes(tpath)
     for s in shards:
         os.remove(s)
     os.remove(tpath)
     json.dump(res, open(res_path, 'w'))
     prune_cache()
+    return res
+
+
+def result_hashes(tpath):
+    """case id -> short hash of its RESULT line in a trace file"""
+    out, cur = {}, None
+    with open(tpath) as f:
+        for line in f:
+            if line.startswith('CASE '):
+                m = re.search(r'\bid=(\S+)', line)
+                cur = m.group(1) if m else None
+            elif line.startswith('RESULT ') and cur:
+                out[cur] = hashlib.sha1(line.strip().encode()).hexdigest()[:16]
+    return out
+
+
+def run_c07(seed, tier, log):
+    """C07 on the implementation: the SAME cases run again in separately spawned processes (fresh SipHash keys and
+    address space), in a different order (so every process and thread has another call history), on 1, 3 and 16
+    threads: every output must be identical to the traced run - which S2 has shown bit-exact with the model"""
+    main = run_s1(seed, tier, log)
+    key = hashlib.sha256(('%s|%s|%d|%s|c07' % (repo_hash(), model_hash(), seed, tier)).encode()).hexdigest()[:24]
+    d = os.path.join(CACHE, key)
+    res_path = os.path.join(d, 'c07.json')
+    if os.path.exists(res_path):
+        log('c07: cached result %s' % key)
+        return json.load(open(res_path))
+    os.makedirs(d, exist_ok=True)
+    cases = list(main['specs'].values())
+    cases = [c for c in cases if 'src=seed:' in c or 'src=bytes:' in c]
+    rng = SplitMix64(seed ^ 0xC07)
+    orders = {'reversed/1-thread': (list(reversed(cases)), 1),
+              'shuffled/3-threads': (sorted(cases, key=lambda c: hashlib.md5((c + str(seed)).encode()).hexdigest()), 3),
+              'by-protocol-descending/16-threads': (sorted(cases, key=lambda c: -int(re.search(r' v=(\d)', c).group(1))), 16)}
+    if tier == 'quick':
+        # keep the quick tier short: every 2nd case for the single-threaded run
+        orders['reversed/1-thread'] = (orders['reversed/1-thread'][0][::2], 1)
+    props, nruns, t0 = [], 0, time.time()
+    for name, (cs, th) in orders.items():
+        cpath = os.path.join(d, 'cases.txt')
+        with open(cpath, 'w') as f:
+            f.write('\n'.join(cs) + '\n')
+        p = subprocess.run([HBIN, 'results', cpath, str(th)], stdout=subprocess.PIPE, stderr=subprocess.PIPE, env=ENV, timeout=3000, text=True)
+        if p.returncode != 0:
+            raise Infra('harness results failed: %s' % p.stderr[-2000:])
+        for line in p.stdout.splitlines():
+            w = line.split(' ', 2)
+            if w[0] != 'RES':
+                continue
+            nruns += 1
+            h = hashlib.sha1(w[2].strip().encode()).hexdigest()[:16]
+            if main['result_hash'].get(w[1]) != h:
+                props.append({'id': w[1], 'prop': 'C07', 'detail': 'output differs between the traced run and run "%s": %s' % (name, w[2][:120])})
+    res = dict(ok=[], diffs=[], props=props, stats={}, ncases=nruns, okn=nruns - len(props), nops=nruns,
+               specs=main['specs'], samples=cases[:2], runs=list(orders))
+    json.dump(res, open(res_path, 'w'))
+    log('c07: %d re-executions in %d processes, %d differ, %.1fs' % (nruns, len(orders), len(props), time.time() - t0))
+    return res
+
+
+KNOWN_DEEP = dict(v=2, n=40000, stack_kb=2048)
+
+
+def run_s9(seed, tier, log):
+    """C09 beyond what a theorem can show: native stack use of deeply nested objects (generation and teardown), in child
+    processes. Depths inside the property's range on a default-size thread stack must survive."""
+    t0 = time.time()
+    props, runs = [], []
+    depths = [(2, 1000, 2048), (0, 3000, 2048), (5, 8192, 2048), (2, 16000, 2048), (2, 30000, 0)]
+    if tier == 'thorough':
+        depths += [(1, 16000, 2048), (4, 16000, 2048), (3, 40000, 0)]
+    for (v, n, kb) in depths + [(KNOWN_DEEP['v'], KNOWN_DEEP['n'], KNOWN_DEEP['stack_kb'])]:
+        p = subprocess.run([HBIN, 'deep', str(v), str(n), str(kb)], stdout=subprocess.PIPE, stderr=subprocess.PIPE, env=ENV, timeout=600, text=True)
+        ok = p.returncode == 0 and 'DEEP-OK' in p.stdout
+        runs.append(dict(v=v, n=n, stack_kb=kb, ok=ok, rc=p.returncode))
+        if not ok:
+            props.append({'id': 'deep-v%d-n%d-stack%d' % (v, n, kb), 'prop': 'C09',
+                          'detail': 'nesting depth %d on a %s stack: process died (rc %d) %s' % (
+                              n, ('%d KiB thread' % kb) if kb else 'main-thread', p.returncode, (p.stderr or '').strip()[-120:])})
+    res = dict(ok=[], diffs=[], props=props, stats={}, ncases=len(runs), okn=sum(r['ok'] for r in runs), nops=len(runs),
+               specs={}, samples=runs[:3], runs=runs)
+    for pr in props:
+        res['specs'][pr['id']] = pr['id'] + ' (pf-harness deep: NONE then TUPLE1 x n, generate and drop)'
+    log('s9: %d deep-nesting child processes, %d died, %.1fs' % (len(runs), len(props), time.time() - t0))
     return res
 
 
